@@ -1051,4 +1051,64 @@ theorem calm_run (n : String) (steps : List Step) : ∀ (s : St), Calm s n → t
     · exact hc'
     · exact ih s' hc' hrest tl hr p hp'
 
+/-! ### Several NodeClaims built from one NodePool object (`static.provisioning`, `StaticDrift`, repeated
+`NewNodeClaimTemplate`): creations leave the NodePool alone -/
+
+/-- one creation of a batch: the way, the name, the outcome of the `Any()` calls, the provider's labels, Launched -/
+abbrev Creation := Via × String × Labels × Labels × Bool
+
+/-- the steps of a batch of creations from the NodePool of state `s` -/
+def batchSteps (s : St) (b : List Creation) : List Step :=
+  b.map (fun c => createStep s c.1 c.2.1 c.2.2.1 c.2.2.2.1 c.2.2.2.2)
+
+def creationStep : Step → Bool
+  | .create _ _ _ _ => true
+  | .advance ns => ns == 0
+  | _ => false
+
+theorem createClaim_leaves_nodepool (s s' : St) (n : String) (r p : Labels) (l : Bool)
+    (h : createClaim s n r p l = .ok s') : s'.pool = s.pool ∧ s'.nodeClass = s.nodeClass := by
+  unfold createClaim at h
+  split at h
+  · simp only [pure, Except.pure] at h; injection h with h; subst h; exact ⟨rfl, rfl⟩
+  · cases hr : s.pool.pool.template.nodeClassRef with
+    | none => rw [hr] at h; simp at h
+    | some ref =>
+      rw [hr] at h
+      simp only at h
+      cases hb : buildReqs (s.pool.pool.template.requirements.getD []) with
+      | error x => rw [hb] at h; simp [bind, Except.bind] at h
+      | ok R =>
+        rw [hb] at h
+        simp only [bind, Except.bind, pure, Except.pure] at h
+        injection h with h; subst h
+        exact ⟨rfl, rfl⟩
+
+theorem creationStep_leaves_nodepool (s s' : St) (st : Step) (e : Bool) (hc : creationStep st = true)
+    (h : step s st = .ok (s', e)) : s'.pool = s.pool ∧ s'.nodeClass = s.nodeClass := by
+  cases st with
+  | create n r p l =>
+    simp only [step, bind, Except.bind] at h
+    cases hcc : createClaim s n r p l with
+    | error x => rw [hcc] at h; simp at h
+    | ok s1 =>
+      rw [hcc] at h
+      simp only [pure, Except.pure] at h
+      injection h with h; injection h with h1 _
+      subst h1
+      exact createClaim_leaves_nodepool s s1 n r p l hcc
+  | advance ns =>
+    simp only [step, pure, Except.pure] at h
+    injection h with h; injection h with h1 _
+    subst h1; exact ⟨rfl, rfl⟩
+  | _ => simp [creationStep] at hc
+
+theorem creationStep_createStep (s : St) (c : Creation) :
+    creationStep (createStep s c.1 c.2.1 c.2.2.1 c.2.2.2.1 c.2.2.2.2) = true := by
+  unfold createStep
+  split <;> simp [creationStep]
+
+theorem creationStep_keepsStamp (st : Step) (h : creationStep st = true) : keepsStamp st = true := by
+  cases st <;> simp_all [creationStep, keepsStamp]
+
 end Karp.Drift
